@@ -5,6 +5,7 @@ the rapid requirement with -modfile.  See DESIGN.md section 2.1.
 """
 import json
 import os
+import re
 import shutil
 import subprocess
 import sys
@@ -36,7 +37,21 @@ def prepare():
     gomod = open(os.path.join(REPO, "go.mod")).read()
     if "pgregory.net/rapid" not in gomod:
         gomod = gomod.rstrip("\n") + "\n\nrequire pgregory.net/rapid v1.3.0\n"
-    _write_if_changed(os.path.join(BUILD, "go.mod"), gomod)
+    # rapid v1.3.0 declares go 1.23, which forces the go line of this alternative go.mod up to 1.23 - and with it the
+    # language version and the runtime defaults sarama would be compiled with (per-iteration loop variables, synchronous
+    # timer channels, ...). /repo's own go.mod says go 1.13, and that is how its users and its suite build it. Two measures
+    # keep the harness build on the same semantics: the runtime defaults are pinned here (everything older than 1.21 means
+    # "as of Go 1.20"), and every source file of /repo is compiled at language version go1.21 - the lowest a file can be
+    # downgraded to, and older than the loop-variable change - through the overlay (see _lang_copies).
+    if "godebug default=" not in gomod:
+        gomod = gomod.rstrip("\n") + "\n\ngodebug default=go1.20\n"
+    # go normalises the file on its first build (it moves the added requirement); rewriting it from the template before
+    # every build would make every build rewrite it again - and two concurrent builds then trip over each other
+    # ("existing contents have changed since last read"). So the file is regenerated only when the template changes.
+    tmpl = os.path.join(BUILD, "go.mod.tmpl")
+    if not (os.path.exists(tmpl) and open(tmpl).read() == gomod and os.path.exists(os.path.join(BUILD, "go.mod"))):
+        _write_if_changed(os.path.join(BUILD, "go.mod"), gomod)
+        _write_if_changed(tmpl, gomod)
     # go.sum: keep sums go added earlier (rapid), refresh the rest from /repo
     sums = set()
     for p in (os.path.join(REPO, "go.sum"), os.path.join(BUILD, "go.sum")):
@@ -63,7 +78,61 @@ def prepare():
     inject(os.path.join(h, "mocks"), os.path.join(REPO, "mocks"), lambda f: "zz_vf_" + f)
     inject(os.path.join(h, "vfcore"), os.path.join(REPO, "internal", "vfcore"), lambda f: f)
     inject(os.path.join(h, "vfref"), os.path.join(REPO, "internal", "vfref"), lambda f: f)
+    replace.update(_lang_copies())
     _write_if_changed(os.path.join(BUILD, "overlay.json"), json.dumps({"Replace": replace}, indent=1, sort_keys=True))
+
+
+LANG = "go1.21"
+
+
+def _lang_copies():
+    """Copies of /repo's own .go files (root package and mocks) with a '//go:build go1.21' constraint, which sets the
+    language version of the file; returns overlay entries original -> copy. The copies are refreshed from the working tree
+    on every build."""
+    out = {}
+    for sub in ("", "mocks"):
+        src = os.path.join(REPO, sub)
+        dst = os.path.join(BUILD, "lang", sub)
+        os.makedirs(dst, exist_ok=True)
+        keep = set()
+        for f in sorted(os.listdir(src)):
+            if not f.endswith(".go"):
+                continue
+            text = open(os.path.join(src, f), encoding="utf-8", errors="surrogateescape").read()
+            lines = text.split("\n")
+            done = False
+            legacy = []  # indices and expressions of '// +build' lines in the header
+            for i, l in enumerate(lines):
+                st = l.strip()
+                if st.startswith("//go:build "):
+                    lines[i] = "//go:build (" + st[len("//go:build "):] + ") && " + LANG
+                    done = True
+                m = re.match(r"^//\s*\+build\s+(.*)$", st)
+                if m:
+                    # a line is an OR of its space separated terms, a term an AND of its comma separated parts
+                    legacy.append((i, "(" + " || ".join("(" + " && ".join(t.split(",")) + ")" for t in m.group(1).split()) + ")"))
+                if st.startswith("package "):
+                    break
+            if not done and legacy:
+                lines[legacy[0][0]] = "//go:build " + " && ".join(e for _, e in legacy) + " && " + LANG
+                legacy = legacy[1:]
+                done = True
+            # remaining legacy lines would disagree with the //go:build line now; the toolchain only reads the latter
+            for i, _ in legacy:
+                lines[i] = "//"
+            if not done:
+                lines = ["//go:build " + LANG, ""] + lines
+            cp = os.path.join(dst, f)
+            keep.add(f)
+            new = "\n".join(lines)
+            if not (os.path.exists(cp) and open(cp, encoding="utf-8", errors="surrogateescape").read() == new):
+                with open(cp, "w", encoding="utf-8", errors="surrogateescape") as fh:
+                    fh.write(new)
+            out[os.path.join(src, f)] = cp
+        for f in os.listdir(dst):
+            if f.endswith(".go") and f not in keep:
+                os.remove(os.path.join(dst, f))
+    return out
 
 
 def _write_if_changed(path, content):
@@ -75,6 +144,16 @@ def _write_if_changed(path, content):
 
 def build_test_binary(pkg, out, fuzz=None, race=False, tags="verif"):
     """go test -c for package pkg ('.' or './mocks') of /repo's working tree."""
+    import fcntl
+    os.makedirs(BUILD, exist_ok=True)
+    # one build at a time per build directory: checks may be started concurrently, and prepare() plus go's own updates of
+    # go.mod / go.sum are not safe against each other
+    with open(os.path.join(BUILD, ".lock"), "w") as lk:
+        fcntl.flock(lk, fcntl.LOCK_EX)
+        return _build_locked(pkg, out, fuzz, race, tags)
+
+
+def _build_locked(pkg, out, fuzz, race, tags):
     prepare()
     cmd = ["go", "test", "-tags", tags, "-vet=off",
            "-modfile=" + os.path.join(BUILD, "go.mod"),
